@@ -30,12 +30,14 @@ def e1(ctx):
     try:
         # thorough: interval lengths up to 12 units (2.3 million states, about 5 minutes with 8 workers; 14 units did not
         # finish in 25 minutes)
-        r = vlib.tlc("MC_IvpProtocol", cfg="MC_IvpProtocol_run.cfg", workers=8 if thorough else 6, timeout=3600 if thorough else 1500,
-                     xmx="16g" if thorough else "8g", deque=False, extra=["-coverage", "1"])
+        r = vlib.e1(ctx, "MC_IvpProtocol", "IvpProtocol",
+                    ["EulerDone", "EulerStep", "RkDone", "RkTrial", "HandOver", "Sentinel", "CommitAtEnd", "MsDone", "FinalClip", "StartUp",
+                     "PcTrial", "UserFail", "Fused"],
+                    cfg="MC_IvpProtocol_run.cfg", workers=8 if thorough else 6, timeout=3600 if thorough else 1500,
+                    xmx="16g" if thorough else "8g")
     finally:
         import os
         os.remove(vlib.SPEC + "/MC_IvpProtocol_run.cfg")
-    ctx.add_tlc(r, e1=True)
     ctx.notes["e1"] = {"module": "MC_IvpProtocol", "distinct_states": r.distinct, "generated": r.generated,
                        "invariants": "ContractRefined PathOrdered PathInside PathGaps EndReached EulerOnGrid HistAligned "
                                      "StepWithinMax NothingPending AtMostOneErr FailOnlyBelowMin; liveness Terminates"}
